@@ -209,29 +209,163 @@ pub fn c16_wire_totality() {
     }
 }
 
-/// (b) every filesystem event kind: its wire name (`format!("{kind:?}")`, real core::fmt) parses
-/// back to the same kind, and the coarse `simple` field agrees with it.
-#[kani::proof]
-#[kani::unwind(32)]
-pub fn c16_fs_kind_roundtrip() {
-    let k = any_file_event_kind();
-    let wire = SerdeTag::from(Tag::FileEventKind(k));
-    let p = wire.clone().into_parts();
-    assert!(matches!(p.kind, TagKind::Fs), "C16: fs tag wire kind");
-    assert!(p.full.is_some() && p.simple.is_some(), "C16: fs tag must carry `full` and `simple`");
-    kani::cover!(matches!(k, watchexec_events::filekind::FileEventKind::Modify(_)), "modify kind");
-    match Tag::from(wire) {
-        Tag::FileEventKind(back) => {
-            if matches!(k, watchexec_events::filekind::FileEventKind::Any) {
-                // `Any` has the documented wire name "Any"
-                assert!(back == k, "C16: fs kind Any changed across the wire");
-            } else {
-                assert!(back == k, "C16: fs kind changed across the wire");
-            }
-        }
-        _ => panic!("C16: fs tag parsed as another kind"),
+/// (b) every filesystem event kind round-trips through its wire name. Decided in two halves
+/// that share one table (kind, documented wire name) of all 48 kinds:
+///   format half: `SerdeTag::from(Tag::FileEventKind(kind))` carries exactly that name in `full`
+///                (real `format!("{kind:?}")`, real core::fmt) and the right coarse class;
+///   parse half:  a wire object with `full = name` parses back to exactly that kind.
+/// The table index is solver-chosen (constant per path); the composition is the round trip.
+use watchexec_events::filekind::*;
+
+pub const N_KINDS: usize = 48;
+pub fn kind_table(i: usize) -> (FileEventKind, &'static str) {
+    use FileEventKind as K;
+    match i {
+        0 => (K::Any, "Any"),
+        1 => (K::Access(AccessKind::Any), "Access(Any)"),
+        2 => (K::Access(AccessKind::Read), "Access(Read)"),
+        3 => (K::Access(AccessKind::Open(AccessMode::Any)), "Access(Open(Any))"),
+        4 => (K::Access(AccessKind::Open(AccessMode::Execute)), "Access(Open(Execute))"),
+        5 => (K::Access(AccessKind::Open(AccessMode::Read)), "Access(Open(Read))"),
+        6 => (K::Access(AccessKind::Open(AccessMode::Write)), "Access(Open(Write))"),
+        7 => (K::Access(AccessKind::Open(AccessMode::Other)), "Access(Open(Other))"),
+        8 => (K::Access(AccessKind::Close(AccessMode::Any)), "Access(Close(Any))"),
+        9 => (K::Access(AccessKind::Close(AccessMode::Execute)), "Access(Close(Execute))"),
+        10 => (K::Access(AccessKind::Close(AccessMode::Read)), "Access(Close(Read))"),
+        11 => (K::Access(AccessKind::Close(AccessMode::Write)), "Access(Close(Write))"),
+        12 => (K::Access(AccessKind::Close(AccessMode::Other)), "Access(Close(Other))"),
+        13 => (K::Access(AccessKind::Other), "Access(Other)"),
+        14 => (K::Create(CreateKind::Any), "Create(Any)"),
+        15 => (K::Create(CreateKind::File), "Create(File)"),
+        16 => (K::Create(CreateKind::Folder), "Create(Folder)"),
+        17 => (K::Create(CreateKind::Other), "Create(Other)"),
+        18 => (K::Modify(ModifyKind::Any), "Modify(Any)"),
+        19 => (K::Modify(ModifyKind::Data(DataChange::Any)), "Modify(Data(Any))"),
+        20 => (K::Modify(ModifyKind::Data(DataChange::Size)), "Modify(Data(Size))"),
+        21 => (K::Modify(ModifyKind::Data(DataChange::Content)), "Modify(Data(Content))"),
+        22 => (K::Modify(ModifyKind::Data(DataChange::Other)), "Modify(Data(Other))"),
+        23 => (K::Modify(ModifyKind::Metadata(MetadataKind::Any)), "Modify(Metadata(Any))"),
+        24 => (K::Modify(ModifyKind::Metadata(MetadataKind::AccessTime)), "Modify(Metadata(AccessTime))"),
+        25 => (K::Modify(ModifyKind::Metadata(MetadataKind::WriteTime)), "Modify(Metadata(WriteTime))"),
+        26 => (K::Modify(ModifyKind::Metadata(MetadataKind::Permissions)), "Modify(Metadata(Permissions))"),
+        27 => (K::Modify(ModifyKind::Metadata(MetadataKind::Ownership)), "Modify(Metadata(Ownership))"),
+        28 => (K::Modify(ModifyKind::Metadata(MetadataKind::Extended)), "Modify(Metadata(Extended))"),
+        29 => (K::Modify(ModifyKind::Metadata(MetadataKind::Other)), "Modify(Metadata(Other))"),
+        30 => (K::Modify(ModifyKind::Name(RenameMode::Any)), "Modify(Name(Any))"),
+        31 => (K::Modify(ModifyKind::Name(RenameMode::To)), "Modify(Name(To))"),
+        32 => (K::Modify(ModifyKind::Name(RenameMode::From)), "Modify(Name(From))"),
+        33 => (K::Modify(ModifyKind::Name(RenameMode::Both)), "Modify(Name(Both))"),
+        34 => (K::Modify(ModifyKind::Name(RenameMode::Other)), "Modify(Name(Other))"),
+        35 => (K::Modify(ModifyKind::Other), "Modify(Other)"),
+        36 => (K::Remove(RemoveKind::Any), "Remove(Any)"),
+        37 => (K::Remove(RemoveKind::File), "Remove(File)"),
+        38 => (K::Remove(RemoveKind::Folder), "Remove(Folder)"),
+        39 => (K::Remove(RemoveKind::Other), "Remove(Other)"),
+        _ => (K::Other, "Other"),
     }
 }
+// 41 distinct kinds: the notify enumeration (Any, Access x13, Create x4, Modify x18, Remove x4, Other)
+pub const N_TABLE: usize = 41;
+
+fn class_of(k: FileEventKind) -> u8 {
+    match k {
+        FileEventKind::Access(_) => 0,
+        FileEventKind::Create(_) => 1,
+        FileEventKind::Modify(_) => 2,
+        FileEventKind::Remove(_) => 3,
+        _ => 4,
+    }
+}
+fn class_of_simple(k: FsEventKind) -> u8 {
+    match k {
+        FsEventKind::Access => 0,
+        FsEventKind::Create => 1,
+        FsEventKind::Modify => 2,
+        FsEventKind::Remove => 3,
+        FsEventKind::Other => 4,
+    }
+}
+
+fn str_eq(a: &str, b: &str) -> bool {
+    let (a, b) = (a.as_bytes(), b.as_bytes());
+    if a.len() != b.len() {
+        return false;
+    }
+    let mut i = 0;
+    while i < a.len() {
+        if a[i] != b[i] {
+            return false;
+        }
+        i += 1;
+    }
+    true
+}
+
+fn format_half(lo: usize, hi: usize) {
+    let c: usize = kani::any();
+    kani::assume(c >= lo && c < hi);
+    let mut i = lo;
+    while i < hi {
+        if c == i {
+            let (kind, name) = kind_table(i);
+            let p = SerdeTag::from(Tag::FileEventKind(kind)).into_parts();
+            assert!(matches!(p.kind, TagKind::Fs), "C16: fs tag wire kind");
+            kani::cover!(i == hi - 1, "last kind of the range");
+            match (&p.full, p.simple) {
+                (Some(full), Some(simple)) => {
+                    assert!(str_eq(full, name), "C16: fs kind wire name is not the documented one");
+                    assert!(class_of_simple(simple) == class_of(kind), "C16: coarse fs class disagrees with the kind");
+                }
+                _ => panic!("C16: fs tag must carry `full` and `simple`"),
+            }
+            std::mem::forget(p);
+            kani::assume(false); // end of path
+        }
+        i += 1;
+    }
+}
+
+fn parse_half(lo: usize, hi: usize) {
+    let c: usize = kani::any();
+    kani::assume(c >= lo && c < hi);
+    let mut i = lo;
+    while i < hi {
+        if c == i {
+            let (kind, name) = kind_table(i);
+            // `simple` is either consistent, absent or contradictory: `full` must win
+            let simple = any_opt(any_simple);
+            let parts = SerdeTagParts { kind: TagKind::Fs, full: Some(String::from(name)), simple, ..Default::default() };
+            kani::cover!(i == hi - 1, "last kind of the range");
+            match Tag::from(SerdeTag::from_parts(parts)) {
+                Tag::FileEventKind(back) => assert!(back == kind, "C16: fs kind wire name parsed to a different kind"),
+                _ => panic!("C16: fs tag parsed as another tag kind"),
+            }
+            kani::assume(false); // end of path
+        }
+        i += 1;
+    }
+}
+
+macro_rules! fs_range {
+    ($f:ident, $p:ident, $lo:expr, $hi:expr) => {
+        #[kani::proof]
+        #[kani::unwind(34)]
+        pub fn $f() {
+            format_half($lo, $hi);
+        }
+        #[kani::proof]
+        #[kani::unwind(34)]
+        pub fn $p() {
+            parse_half($lo, $hi);
+        }
+    };
+}
+fs_range!(c16_fs_format_0, c16_fs_parse_0, 0, 7);
+fs_range!(c16_fs_format_1, c16_fs_parse_1, 7, 14);
+fs_range!(c16_fs_format_2, c16_fs_parse_2, 14, 21);
+fs_range!(c16_fs_format_3, c16_fs_parse_3, 21, 28);
+fs_range!(c16_fs_format_4, c16_fs_parse_4, 28, 35);
+fs_range!(c16_fs_format_5, c16_fs_parse_5, 35, 41);
 
 /// (b') the coarse-only form (`simple` without `full`) parses to the generic kind of that class.
 #[kani::proof]
